@@ -17,6 +17,7 @@ import Driver.Watch
 import Driver.Caches
 import Driver.Steps
 import Driver.Transfer
+import Driver.Prelude
 
 namespace Driver
 
@@ -38,6 +39,7 @@ def dispatch (toks : List String) : String :=
       else if area == "caches" then Driver.Caches.handle toks
       else if area == "steps" then Driver.Steps.handle toks
       else if area == "xfer" then Driver.Transfer.handle toks
+      else if area == "prelude" then Driver.Prelude.handle toks
       else none
     r.getD "bad-op"
 
